@@ -356,10 +356,15 @@ where
                 AlnWriter::new(&self.seq, self.k, &self.repeat_coors, self.ambig_mask);
                 self.mapped_names.len()
             ];
-        rayon::ThreadPoolBuilder::new()
+        // The global pool may already have been set up when the input was
+        // built from sequence files in the same command
+        if rayon::ThreadPoolBuilder::new()
             .num_threads(threads)
             .build_global()
-            .unwrap();
+            .is_err()
+        {
+            log::info!("Using existing thread pool");
+        }
         seq_writers
             .par_iter_mut()
             .enumerate()
